@@ -5,7 +5,7 @@ Property theorems only (model: Rpft/Schema, RowParse, RowUnparse, RowSpec; helpe
 Rpft/Lemmas/Row.lean, Codec.lean).  Strings, integers, list lengths and the number of
 fields are unbounded in every theorem.
 -/
-import Rpft.Lemmas.RowFam
+import Rpft.Lemmas.RowGenFlow
 import Rpft.FlowSchema
 import Rpft.Gen.Tables
 set_option linter.unusedSimpArgs false
@@ -49,13 +49,13 @@ every level -/
 def wfFieldNames (fs : List Field) : Bool :=
   fs.all (fun f => simpleName f.1) && decide ((fs.map (·.1)).Nodup)
 
-/-- **The general statement** (kept visible; proved below for the families named
-`…_partial`): for every schema of the `Ty` grammar without header remaps, every
-representable value and every admissible layout, parse ∘ unparse is the identity.
-(`AnySpreadOk`: untyped lists holding lists must be packed — finding F-C04-d.  Schemas with
-remaps additionally need the remap tables to be mutually inverse on the value, see
-`harness/props/c07.py remap_consistent`.) -/
-def C07_full : Prop :=
+/-- The FIRST-ROUND general statement, with the layout condition checked statically on the
+schema (list index 1 standing for every index).  It is kept visible because it is FALSE
+(`static_statement_is_false` below: a target header with a concrete index such as `items.2`
+escapes the static check) — the general theorem `parse_unparse` at the end of this file uses
+the value-level condition `LayoutOk` instead and needs the nested remap tables to be
+consistent (`goodTop`). -/
+def C07_static_statement : Prop :=
   ∀ (fs : List Field) (lay : Layout) (v : Val),
     wfFieldNames fs = true →
     Representable (plainTop fs) v = true → Admissible { top := plainTop fs } lay = true →
@@ -329,5 +329,224 @@ example : wfFieldNames exAny = true ∧ family exAny = true ∧
     roundTrips { top := plainTop exAny } { targets := ["hs".toList] } exAnyVal = true ∧
     AnySpreadOk { top := plainTop exAny } {} exAnyVal = false ∧
     roundTrips { top := plainTop exAny } {} exAnyVal = false := by decide +kernel
+
+/-! ## The general theorem
+
+Every row model whose (arbitrarily nested) field types are built from `str`/`int`/`float`/
+`bool`, untyped lists, `List[T]` and sub-records with consistent remap tables (`goodTop`),
+every representable value, every layout that is `LayoutOk` for the value (each position
+spread or packed into one cell; a packed position must fit one cell), with or without
+top-level header remaps (`RemapConsistent`). -/
+
+/-- **C07 (general)**: `parse_row(unparse_row(v, layout)) = v`.
+* `goodTop sch.top` — static, decidable: at every level field names and their headers are
+  distinct header segments and `header_name_to_field_name` undoes
+  `field_name_to_header_name` (`remapOk`); nesting depth and list lengths are unbounded.
+* `Representable` — the value domain of the statement (trimmed template-free strings, no blank
+  element inside a list, …).
+* `LayoutOk sch lay v` — nothing excluded; every position that `unparse` writes as ONE cell
+  (matched by a target header — `*` or concrete indices — or forced by a remapped field) has
+  a type that fits one cell (`packTy` = the two-level limit); a spread untyped list holds
+  plain strings (F-C04-d).  Spread positions nest arbitrarily.
+* `RemapConsistent sch lay v` — the top-level header remaps lead back to the written fields
+  (flow rows: `message_text` is the main argument of the row's `type`). -/
+theorem parse_unparse (sch : Schema) (lay : Layout) (v : Val)
+    (hg : goodTop sch.top = true) (hr : Representable sch.top v = true)
+    (hl : LayoutOk sch lay v = true) (hc : RemapConsistent sch lay v = true) :
+    RoundTrip sch lay v :=
+  parse_unparse_gen sch lay v hg hr hl hc
+
+/-- **C07 without a context remap**: when the root's own tables satisfy the static side
+conditions too (`goodTy sch.top`), no value-level remap condition is needed. -/
+theorem parse_unparse_static_remaps (sch : Schema) (lay : Layout) (v : Val)
+    (hb : sch.ctxBasic = []) (hm : sch.ctxMain = none)
+    (hg : goodTy sch.top = true) (hr : Representable sch.top v = true)
+    (hl : LayoutOk sch lay v = true) : RoundTrip sch lay v :=
+  parse_unparse_static sch lay v hb hm hg hr hl
+
+/-- the flow row schema (tied to the source by `tables_agree_schema`) is in the family: `Edge`
+with its `from_`↔`from` tables, the nested `Condition`, `Webhook` with the untyped `headers`,
+`WhatsAppTemplating` with a list -/
+theorem flowRowSchema_in_family : goodTop flowRowSchema.top = true := by decide +kernel
+
+/-- **The flow row model round-trips**, in every layout that is `LayoutOk` for the row:
+`flowMainOk` — every written field whose header is `message_text` is the main argument
+selected by `row_type_to_main_arg[type]` (so at most one of them is non-default).  All side
+conditions on `field_name_to_header_name`, `basic_header_dict`, `row_type_to_main_arg` are
+discharged by the kernel on the T1-tied tables (`flow_static`). -/
+theorem flow_row_roundtrip (lay : Layout) (kvs : List (Str × Val))
+    (hr : Representable flowRowSchema.top (.model kvs) = true)
+    (hl : LayoutOk flowRowSchema lay (.model kvs) = true) (hm : flowMainOk kvs = true) :
+    RoundTrip flowRowSchema lay (.model kvs) :=
+  flow_roundtrip lay kvs hr hl hm
+
+/-- `packTy` is the code's two-level limit: a type fits one cell iff `to_nested_list` of its
+values has depth ≤ 2 (and, for a record, its header→field table leaves the field names alone) -/
+theorem packTy_depth (ty : Ty) (h : packTy ty = true) : packDepth ty ≤ 2 := by
+  cases ty with
+  | str | int | float | bool | anyList => simp [packDepth]
+  | list t =>
+    cases t with
+    | list u => simp only [packTy] at h; cases u <;> simp [isBasicTy] at h <;> simp [packDepth]
+    | str | int | float | bool => simp [packDepth]
+    | anyList => simp [packTy, isBasicTy] at h
+    | model _ _ _ => simp [packTy, isBasicTy] at h
+  | model fs h2f f2h =>
+    simp only [packTy, List.all_eq_true, Bool.and_eq_true] at h
+    have : packDepthFields fs = 0 := by
+      induction fs with
+      | nil => simp [packDepthFields]
+      | cons f rest ih =>
+        obtain ⟨n, t, d⟩ := f
+        have h1 := (h (n, t, d) (by simp)).1
+        have h2 := ih (fun x hx => h x (List.mem_cons_of_mem _ hx))
+        simp only [packDepthFields, h2]
+        cases t <;> simp [isBasicTy] at h1 <;> simp [packDepth]
+    simp [packDepth, this]
+
+/-! #### non-vacuity and negative witnesses (general theorem) -/
+
+def exInner : List Field :=
+  [("xs".toList, .list .str, some (.list [])), ("k".toList, .str, some (.str [])),
+   ("c".toList, conditionTy, some conditionDefault)]
+def exInnerDefault : Val :=
+  .model [("xs".toList, .list []), ("k".toList, .str []), ("c".toList, conditionDefault)]
+
+/-- a deep schema: a list of records each holding a list and a sub-record; a sub-record
+holding a sub-record holding a list; a list of lists; a list of untyped lists; remapped
+headers at the root and inside the list elements -/
+def exDeepFields : List Field :=
+  [("items".toList, .list (.model exInner (pairsS [("key", "k")]) (pairsS [("k", "key")])), some (.list [])),
+   ("o".toList, plainTop [("inner".toList, plainTop exInner, some exInnerDefault),
+      ("tag".toList, .str, some (.str []))],
+     some (.model [("inner".toList, exInnerDefault), ("tag".toList, .str [])])),
+   ("ll".toList, .list (.list .int), some (.list [])),
+   ("ul".toList, .list .anyList, some (.list [])),
+   ("from_".toList, .str, some (.str []))]
+def exDeepSch : Schema :=
+  { top := .model exDeepFields (pairsS [("from", "from_")]) (pairsS [("from_", "from")]) }
+
+def exInnerVal (xs : List Str) (k : String) (cv : String) : Val :=
+  .model [("xs".toList, .list (xs.map Val.str)), ("k".toList, .str k.toList),
+    ("c".toList, .model [("value".toList, .str cv.toList), ("variable".toList, .str []),
+      ("type".toList, .str []), ("name".toList, .str "n;1".toList)])]
+
+def exDeepVal : Val :=
+  .model [("items".toList, .list [exInnerVal ["a|b".toList, "c".toList] "k1" "v",
+      exInnerVal ["d".toList] "" ""]),
+    ("o".toList, .model [("inner".toList, exInnerVal ["z".toList] "kk" "w"), ("tag".toList, .str "t".toList)]),
+    ("ll".toList, .list [.list [.int 1, .int (-2)], .list [.int 3]]),
+    ("ul".toList, .list [.any [.atom "p".toList, .atom "q".toList], .any [.atom "r".toList]]),
+    ("from_".toList, .str "start".toList)]
+
+def exDeepLays : List Layout :=
+  [{}, { targets := ["items.*.xs".toList, "items.2.c".toList, "o.inner.c".toList] },
+   { targets := ["ll".toList, "ul.*".toList, "items.1.xs".toList] },
+   { targets := ["ll.*".toList, "ul.2".toList, "o.inner.xs".toList, "items.*.c".toList] }]
+
+/-- non-vacuity of `parse_unparse` / `parse_unparse_static_remaps`: the hypotheses hold for a
+deep value in four layouts (all spread; lists inside list elements packed, one element's
+sub-record packed by a concrete index; the list of lists packed whole; its inner lists packed
+one per cell) — and the rows do round-trip -/
+example : goodTy exDeepSch.top = true ∧ goodTop exDeepSch.top = true ∧
+    Representable exDeepSch.top exDeepVal = true ∧
+    exDeepLays.all (fun lay => LayoutOk exDeepSch lay exDeepVal &&
+      RemapConsistent exDeepSch lay exDeepVal && roundTrips exDeepSch lay exDeepVal) = true := by
+  decide +kernel
+
+/-- the four layouts give four different rows -/
+example : (exDeepLays.map fun lay => match unparseRow exDeepSch lay exDeepVal with
+    | .ok cells => cells.length
+    | .error _ => 0) = [19, 17, 15, 17] := by decide +kernel
+
+def exFlowRow (mainField : String) (main : Val) : List (Str × Val) :=
+  (flowRowFields.map fun f => (f.1, match f.2.2 with | some d => d | none => .str [])).map fun kv =>
+    if kv.1 = "type".toList then (kv.1, .str "send_message".toList)
+    else if kv.1 = "edges".toList then (kv.1, .list [
+      .model [("from_".toList, .str "start".toList), ("condition".toList, conditionDefault)],
+      .model [("from_".toList, .str "1".toList), ("condition".toList,
+        .model [("value".toList, .str "a|b".toList), ("variable".toList, .str "@fields.x".toList),
+          ("type".toList, .str "has_phrase".toList), ("name".toList, .str [])])]])
+    else if kv.1 = mainField.toList then (kv.1, main)
+    else if kv.1 = "webhook".toList then (kv.1,
+      .model [("url".toList, .str "http://x".toList), ("method".toList, .str "GET".toList),
+        ("headers".toList, .any [.list [.atom "k".toList, .atom "v".toList]]), ("body".toList, .str [])])
+    else if kv.1 = "wa_template".toList then (kv.1,
+      .model [("name".toList, .str "tpl".toList), ("uuid".toList, .str []),
+        ("variables".toList, .list [.str "x".toList, .str "y;z".toList])])
+    else if kv.1 = "node_uuid".toList then (kv.1, .str "n-1".toList)
+    else kv
+
+def exFlowLays : List Layout :=
+  [{ targets := ["webhook.headers".toList] },
+   { targets := ["edges.*.condition".toList, "webhook.headers".toList, "wa_template.variables".toList] }]
+
+/-- non-vacuity of `flow_row_roundtrip`: a `send_message` row with two edges (one with a
+condition), a webhook with a header pair, a WhatsApp template with variables, a remapped
+`node_uuid` and the main argument under `message_text` -/
+example :
+    let kvs := exFlowRow "mainarg_message_text" (.str "hi; there".toList)
+    Representable flowRowSchema.top (.model kvs) = true ∧ flowMainOk kvs = true ∧
+    exFlowLays.all (fun lay => LayoutOk flowRowSchema lay (.model kvs) &&
+      roundTrips flowRowSchema lay (.model kvs)) = true := by decide +kernel
+
+/-- `flowMainOk` is needed: a `send_message` row whose `mainarg_value` is set writes it under
+`message_text`, which is read back as `mainarg_message_text` -/
+theorem needs_flowMainOk :
+    let kvs := exFlowRow "mainarg_value" (.str "v".toList)
+    Representable flowRowSchema.top (.model kvs) = true ∧ flowMainOk kvs = false ∧
+    LayoutOk flowRowSchema { targets := ["webhook.headers".toList] } (.model kvs) = true ∧
+    roundTrips flowRowSchema { targets := ["webhook.headers".toList] } (.model kvs) = false := by
+  decide +kernel
+
+def exItemsDeep : List Field :=
+  [("items".toList, .list (plainTop [("xs".toList, .list .str, some (.list []))]), some (.list []))]
+def exItemsDeepVal : Val :=
+  .model [("items".toList, .list [.model [("xs".toList, .list [.str "a".toList])],
+    .model [("xs".toList, .list [.str "b".toList])]])]
+
+/-- `LayoutOk` (checked along the VALUE) is needed and the static `Admissible` (index 1 for
+every index) is not enough: the target `items.2` packs the second element, a record holding
+a list — three levels, the error branch of `join_from_lists` -/
+theorem needs_layoutOk_on_the_value :
+    Admissible { top := plainTop exItemsDeep } { targets := ["items.2".toList] } = true ∧
+    AnySpreadOk { top := plainTop exItemsDeep } { targets := ["items.2".toList] } exItemsDeepVal = true ∧
+    Representable (plainTop exItemsDeep) exItemsDeepVal = true ∧
+    LayoutOk { top := plainTop exItemsDeep } { targets := ["items.2".toList] } exItemsDeepVal = false ∧
+    roundTrips { top := plainTop exItemsDeep } { targets := ["items.2".toList] } exItemsDeepVal = false ∧
+    roundTrips { top := plainTop exItemsDeep } { targets := ["items.2.xs".toList] } exItemsDeepVal = true := by
+  decide +kernel
+
+/-- hence the first-round static statement is false -/
+theorem static_statement_is_false : ¬ C07_static_statement := by
+  intro h
+  have h1 := needs_layoutOk_on_the_value
+  have := roundTrips_of _ _ _ (h exItemsDeep { targets := ["items.2".toList] } exItemsDeepVal
+    (by decide +kernel) h1.2.2.1 h1.1 h1.2.1)
+  rw [h1.2.2.2.2.1] at this
+  cases this
+
+/-- "no blank element inside a list" includes an empty untyped list inside `List[list]`: it
+leaves no cell -/
+theorem needs_no_empty_untyped_list_in_list :
+    roundTrips { top := plainTop [("ul".toList, .list .anyList, some (.list []))] } {}
+      (.model [("ul".toList, .list [.any [], .any [.atom "a".toList]])]) = false ∧
+    Representable (plainTop [("ul".toList, .list .anyList, some (.list []))])
+      (.model [("ul".toList, .list [.any [], .any [.atom "a".toList]])]) = false := by
+  decide +kernel
+
+def exBadRemap : List Field :=
+  [("s".toList, .model [("a".toList, .str, some (.str [])), ("b".toList, .str, some (.str []))]
+      [] (pairsS [("a", "h")]), some (.model [("a".toList, .str []), ("b".toList, .str [])]))]
+
+/-- `goodTop` (`remapOk` at every level) is needed: a sub-record that writes its field `a`
+under the header `h` without a header→field entry for `h` cannot be read back -/
+theorem needs_remapOk :
+    goodTop (plainTop exBadRemap) = false ∧
+    Representable (plainTop exBadRemap)
+      (.model [("s".toList, .model [("a".toList, .str "x".toList), ("b".toList, .str [])])]) = true ∧
+    roundTrips { top := plainTop exBadRemap } {}
+      (.model [("s".toList, .model [("a".toList, .str "x".toList), ("b".toList, .str [])])]) = false := by
+  decide +kernel
 
 end Rpft.Props.C07
